@@ -103,7 +103,13 @@ class C04(Prop):
     level_note = ("No yield point can be placed inside std's fetch_update / fetch_add, so there is no schedule replay: the concurrent theorems "
                   "rest on the assumption that AtomicU64's fetch_add, fetch_max, swap, load and compare_exchange_weak are single atomic accesses "
                   "(sequentially consistent interleaving; Release/AcqRel/Relaxed annotations not modelled) and that fetch_update is the documented "
-                  "load/CAS loop; the stress runs test the consequence (no lost update) on the real code but cannot enumerate schedules. "
+                  "load/CAS loop; the stress engines test the consequence on the real code but cannot enumerate schedules: (i) free-running threads on shared clones "
+                  "(sum / max / integer gauge sum / deliveries closed forms) and (ii) barrier-released ROUNDS (4-8 threads released together by a spin "
+                  "barrier, thousands of rounds, a monitor thread sampling the storage): absolute-only rounds with distinct values above the current one "
+                  "(round must end at the largest, monitor never sees a decrease), increments racing absolutes at or just above the current value "
+                  "(no increment may be overwritten), gauge increments/decrements released together (exact sum) and set racing increments of distinct "
+                  "powers of two (final = set value + a subset). A check-then-act split of an atomic RMW is caught by (ii) with high probability on a "
+                  "multi-core machine, not with certainty; on a single core the rounds would rarely overlap (coverage reports rounds_with_observable_overlap). "
                   "NaN: Coq's primitive floats have one NaN, so the RESULT of gauge arithmetic is compared as 'is NaN' (payload/sign of a produced "
                   "NaN unspecified); `set` and all non-NaN results are bit-exact, NaN operands (all payloads) are in the generator. f32 and "
                   "Duration conversions are compared with an independent python computation, not modelled in Coq; the integer IntoF64 impls are "
@@ -117,7 +123,7 @@ class C04(Prop):
     ]
     trusted_extra = [
         "Coq primitive floats (kernel/VM native binary64 add/sub) and the SpecFloat conversions Prim2SF/SF2Prim (stdlib, no axioms used)",
-        "python oracle of the stress and conversion checks (vlib/c04.py: closed forms sum mod 2^64 / max / integer sum; f32->f64 widening and Duration::as_secs_f64 recomputed with integer arithmetic and python floats)",
+        "python oracle of the stress, rounds and conversion checks (vlib/c04.py: closed forms sum mod 2^64 / max / integer sum, per-round sets of linearisable outcomes; f32->f64 widening and Duration::as_secs_f64 recomputed with integer arithmetic and python floats)",
         "std::sync::atomic::AtomicU64 and Arc (exercised, the atomics modelled per access)",
     ]
     rule = ("cases = sequential call sequences (1..14 calls) on one Arc<AtomicU64> and two logging HistogramFn doubles, through 7 routes (trait on the "
@@ -454,6 +460,76 @@ class C04(Prop):
             return "histogram double did not receive exactly the recorded values"
         return None
 
+    # barrier-released rounds (driver mode R): parameters -> line, and the judgement of the per-round end values
+    @staticmethod
+    def rounds_lines(rng, tier):
+        big = tier == "thorough"
+        n = 6000 if big else 2500
+        runs = []
+        for kind in "amg":
+            for _ in range(2 if big else 1):
+                T = rng.range(4, 8)
+                if kind == "a":
+                    start, p = rng.below(1000), T + rng.range(1, 20)
+                elif kind == "m":
+                    start, p = 1000 + rng.below(1000), rng.range(2, 6)
+                else:
+                    start, p = rng.below(1000), rng.range(1, 4)
+                runs.append(dict(kind=kind, T=T, rounds=n, start=start, p=p, line="R %s %d %d %d %d" % (kind, T, n, start, p)))
+        return runs
+
+    @staticmethod
+    def b2f(b):
+        return struct.unpack(">d", struct.pack(">Q", b))[0]
+
+    def judge_rounds(self, run, got):
+        """-> (reason | None, number of rounds in which the calls demonstrably overlapped)"""
+        kind, T, start, p = run["kind"], run["T"], run["start"], run["p"]
+        ends = got["ends"]
+        if got["panics"] != 0:
+            return "a handle operation panicked", 0
+        if len(ends) != run["rounds"]:
+            return "driver did not complete all rounds", 0
+        why, raced = self.judge_round_ends(run, ends)
+        if why is None and kind in "am" and got["nonmonotone"] != 0:
+            why = "counter observed (by the monitor thread) to decrease under absolute updates / non-wrapping increments"
+        return why, raced
+
+    def judge_round_ends(self, run, ends):
+        kind, T, start, p = run["kind"], run["T"], run["start"], run["p"]
+        raced = 0
+        s = start
+        for r, e in enumerate(ends, 1):
+            if kind == "a":
+                # all threads publish distinct values above the current one: the round must end at the largest
+                if e != start + r * p + T:
+                    return "round %d: counter ended at %d, below the largest absolute value given (%d)" % (r, e, start + r * p + T), raced
+            elif kind == "m":
+                # p increments of k race absolutes that are <= s (no-ops) and, in odd rounds, one absolute(s+1):
+                # linearisable outcomes are s + p*k (absolute after an increment: no-op) and, odd rounds, s + 1 + p*k
+                k = 2 + r % 5
+                okv = {s + p * k} | ({s + 1 + p * k} if r % 2 else set())
+                if e not in okv:
+                    return "round %d: counter went %d -> %d; increments total %d (an increment was overwritten by an absolute, or an absolute lowered the counter)" % (r, s, e, p * k), raced
+                raced += 1 if (r % 2 and e == s + p * k) else 0
+            else:
+                x = self.b2f(e)
+                if r % 2 == 0:
+                    # integer-valued increments/decrements released together: exact sum
+                    exp = self.b2f(s) + p * sum((i + 1 + r % 3) * (1 if (i + r) % 2 == 0 else -1) for i in range(T))
+                    if x != exp:
+                        return "round %d: gauge ended at %r, expected %r (an increment/decrement was lost or applied twice)" % (r, x, exp), raced
+                else:
+                    # set(S) races one increment of 2^i per thread i>=1: final = S + any subset of the increments
+                    S = float(((r % 1000) + 1) << 20)
+                    d = x - S
+                    mask = (1 << T) - 2
+                    if d != int(d) or d < 0 or int(d) & ~mask:
+                        return "round %d: gauge ended at %r after set(%r) racing increments of 2^i: not set value + a subset of the increments" % (r, x, S), raced
+                    raced += 1 if 0 < int(d) < mask else 0
+            s = e
+        return None, raced
+
     def extra_checks(self, ctx):
         viol = []
         rng = ctx["rng"].fork()
@@ -485,6 +561,27 @@ class C04(Prop):
             why = self.judge_stress(exp, got)
             if why:
                 viol.append(("stress", why, dict(line=line, expected=exp, got=got)))
+        # (3) barrier-released rounds
+        rruns = self.rounds_lines(rng, ctx["tier"])
+        rc, outs, err = core.run_impl(ctx["binpath"], [r["line"] for r in rruns], timeout=600)
+        if rc != 0 or len(outs) != len(rruns):
+            raise core.MachineryBroken("c04 rounds run failed: rc=%s %s" % (rc, err[-1000:]))
+        raced_total = 0
+        for run, o in zip(rruns, outs):
+            kv = dict(t.split("=", 1) for t in o.split())
+            got = dict(panics=int(kv["panics"]), samples=int(kv["samples"]), nonmonotone=int(kv["nonmonotone"]),
+                       ends=[int(v) for v in kv["ends"].split(",") if v])
+            samples += got["samples"]
+            why, raced = self.judge_rounds(run, got)
+            raced_total += raced
+            if why:
+                viol.append(("rounds", why, dict(line=run["line"], params={k: v for k, v in run.items() if k != "line"},
+                                                 nonmonotone=got["nonmonotone"], ends_head=got["ends"][:40])))
+        ctx["coverage"].update({
+            "round_runs": len(rruns), "rounds_total": sum(r["rounds"] for r in rruns),
+            "round_threads": sorted({r["T"] for r in rruns}),
+            "rounds_with_observable_overlap": raced_total,
+        })
         ctx["coverage"].update({
             "into_f64_conversions_checked": len(items),
             "stress_runs": len(runs), "stress_runs_by_kind": by_kind,
@@ -494,7 +591,7 @@ class C04(Prop):
             "stress_ops_per_run_max": max(e["ops"] for _, e in runs),
             "stress_observer_samples": samples,
         })
-        return viol[:3]
+        return viol[:4]
 
 
 PROP = C04()
